@@ -19,6 +19,7 @@ TYPES = [
     ("blob", 0), ("string", 0), ("double precision", 0), ("timestamptz", 0),
     ("varchar", 1), ("char", 1), ("nvarchar", 1), ("nchar", 1), ("varbinary", 1), ("decimal", 2), ("numeric", 2), ("number", 2),
     ("int", 1), ("bigint", 1), ("decimal", 1), ("numeric", 1), ("character varying", 1), ("float", 1),
+    ("time", 1), ("timestamp", 1), ("datetime", 1), ("timestamptz", 1), ("datetimeoffset", 1),
 ]
 
 
@@ -81,7 +82,7 @@ class Gen:
             cw, cr = self.name("c", allow_schema=False)
             names.append(cw)
             ty, np_ = rng.choice(TYPES)
-            params = [rng.choice([1, 3, 10, 255]) for _ in range(np_)]
+            params = [rng.choice([0, 0, 1, 3, 10, 255]) for _ in range(np_)]      # a size of 0 is falsy in Python
             w = cw + " " + ty + ("(" + ", ".join(map(str, params)) + ")" if params else "")
             t = {"name": cr, "type": type_tree(ty, params)}
             # attributes written inside the type: CHARACTER SET is flattened into the column, COLLATE is a column
